@@ -18,11 +18,11 @@ MEMBERSHIPS = {"none": (), "f1": ("f1",), "f2": ("f2",), "both": ("f1", "f2")}
 class MemWorld(World):
     name = "W-mem"
 
-    def __init__(self, v0="f1", v1="f1", s0="none", b0="none", bs="none", r0="f1", pairs=False, declared=("f1", "f2")):
+    def __init__(self, v0="f1", v1="f1", s0="none", b0="none", bs="none", r0="f1", pairs=False, declared=("f1", "f2"), s2="f2"):
         super().__init__()
         self.pairs = pairs
         declared = tuple(declared)
-        self.name = f"W-mem[v0={v0},v1={v1},s0={s0},b0={b0},bs={bs},r0={r0}" + ("" if declared == ("f1", "f2") else f",declared={'+'.join(declared)}") + "]"
+        self.name = f"W-mem[v0={v0},v1={v1},s0={s0},b0={b0},bs={bs},r0={r0}" + ("" if s2 == "f2" else f",s2={s2}") + ("" if declared == ("f1", "f2") else f",declared={'+'.join(declared)}") + "]"
         S = sites()
         cfg = make_config(step=60, cancel=240, idle_timeout=120, dispatcher={"matching_range_km_threshold": 0.0, "charging_range_km_threshold": 5.0, "charging_range_km_soft_threshold": 6.0, "max_search_radius_km": 5.0})
         self.env = make_env(cfg, fleets=declared)  # the fleets the scenario declares (fleets file)
@@ -30,6 +30,9 @@ class MemWorld(World):
         rn = HaversineRoadNetwork(sim_h3_resolution=15)
         self.rn = rn
         st0 = mk_station(env, rn, "s0", S["N1"], {"DCFC": 1}, fleets=MEMBERSHIPS[s0])
+        # a twin station on s0's own cell that belongs to another fleet (two operators sharing one site): a vehicle plugged in at
+        # the one is told to plug in at the other without moving
+        st2 = mk_station(env, rn, "s2", S["N1"], {"DCFC": 1, "LEVEL_2": 1}, fleets=MEMBERSHIPS[s2])
         stb = mk_station(env, rn, "bs", S["X1"], {"LEVEL_2": 1}, fleets=MEMBERSHIPS[bs])
         base0 = mk_base(rn, "b0", S["X1"], stalls=2, station_id="bs", fleets=MEMBERSHIPS[b0])
         priv = "h0_private_hb"
@@ -41,9 +44,10 @@ class MemWorld(World):
         # the base carries h0's id only and h1 -- although it is "his" home -- is not granted access to it; he stands on its cell,
         # off shift, and his own go-home logic asks for a stall there every step
         h1 = mk_vehicle(env, rn, "h1", S["N2"], "quiet", soc=0.5, fleets=("f1",), schedule_id="never", home_base_id="hb").add_membership("h1_private_hb")
-        self.starts = {"init": build_sim(env, rn, vehicles=(veh0, veh1, h0, h1), stations=(st0, stb), bases=(base0, hb))}
+        self.starts = {"init": build_sim(env, rn, vehicles=(veh0, veh1, h0, h1), stations=(st0, st2, stb), bases=(base0, hb))}
         self.request_specs = {"r0": {"origin": S["N2"], "destination": S["M2"], "fleet_id": r0}}
         per_vehicle = [("Idle",), ("DispatchTrip", "r0"), ("DispatchStation", "s0", "DCFC"), ("ChargeStation", "s0", "DCFC"),
+                       ("DispatchStation", "s2", "DCFC"), ("ChargeStation", "s2", "LEVEL_2"),
                        ("DispatchBase", "b0"), ("ReserveBase", "b0"), ("ChargeBase", "b0", "LEVEL_2"),
                        ("DispatchBase", "hb"), ("ReserveBase", "hb")]
         self.controller_menu = [("I", k[0], vid) + tuple(k[1:]) for vid in ("v0", "v1") for k in per_vehicle]
